@@ -196,7 +196,7 @@ def end_to_end_c18(tier, seed, res, work, stats):
         except Exception:
             return 'unparsable'
     def last_json(out):
-        ls = [l for l in out.decode('utf-8', 'replace').splitlines() if l.startswith('{"output"')]
+        ls = [l for l in out.decode('utf-8', 'replace').split('\n') if l.startswith('{"output"')]
         return ls[-1] if ls else ''
     # reference: the query as written, through --query
     ref = {}
@@ -214,7 +214,7 @@ def end_to_end_c18(tier, seed, res, work, stats):
             break
     # scan: one JSON line per rule file in walk order
     rc, o, e = run([B + '/pathfinder', 'scan', '--disable-metrics', '--project', proj, '--ruleset', rdir], timeout=600, env=env)
-    outs = [l for l in o.decode('utf-8', 'replace').splitlines() if l.startswith('{"output"')]
+    outs = [l for l in o.decode('utf-8', 'replace').split('\n') if l.startswith('{"output"')]
     stats['e2e_scan_rules'] += len(outs)
     order = sorted(name for name, _, _ in rules)
     if len(outs) != len(order):
